@@ -12,6 +12,11 @@
 #include <cstdlib>
 #include <algorithm>
 
+#if defined(__SANITIZE_ADDRESS__)
+extern "C" void __sanitizer_start_switch_fiber(void** fake_stack_save, const void* bottom, size_t size);
+extern "C" void __sanitizer_finish_switch_fiber(void* fake_stack_save, const void** bottom_old, size_t* size_old);
+#endif
+
 namespace vfs {
 
 namespace {
@@ -57,8 +62,15 @@ void initMainStack(){
 }
 
 
+void* g_fakeMain = nullptr; void* g_fakeTask = nullptr;
 void trampoline(){
+#if defined(__SANITIZE_ADDRESS__)
+    __sanitizer_finish_switch_fiber(g_fakeTask, nullptr, nullptr);
+#endif
     E.curBody();
+#if defined(__SANITIZE_ADDRESS__)
+    __sanitizer_start_switch_fiber(nullptr, reinterpret_cast<const void*>(E.mainLo), E.mainHi - E.mainLo);   // the task context dies here
+#endif
     // returns to mainCtx through uc_link
 }
 
@@ -184,7 +196,13 @@ void runTask(const int k, const std::uintptr_t boundary){
     E.taskCtx.uc_link = &E.mainCtx;
     makecontext(&E.taskCtx, reinterpret_cast<void(*)()>(trampoline), 0);
     E.inTask = true;
+#if defined(__SANITIZE_ADDRESS__)
+    __sanitizer_start_switch_fiber(&g_fakeMain, E.taskStack, E.taskStackSize);
+#endif
     swapcontext(&E.mainCtx, &E.taskCtx);
+#if defined(__SANITIZE_ADDRESS__)
+    __sanitizer_finish_switch_fiber(g_fakeMain, nullptr, nullptr);
+#endif
     E.inTask = false;
     t.executed = true;
     t.executedAtStep = int(E.trace.steps.size());
